@@ -59,6 +59,7 @@ type Sched struct {
 	mu     sync.Mutex
 	parked map[string]*parkEntry
 	goids  map[int64]string // goroutine id -> task name (root tasks only)
+	depth  map[int64]int    // goroutine id -> reloadLock read-lock depth
 	live   int              // harness goroutines that have not returned yet (tasks + async closures)
 
 	rng    *rand.Rand
@@ -104,6 +105,7 @@ func NewSched(seed uint64, replay []string, maxSteps int) *Sched {
 	return &Sched{
 		parked:   map[string]*parkEntry{},
 		goids:    map[int64]string{},
+		depth:    map[int64]int{},
 		rng:      rand.New(rand.NewPCG(seed, seed^0x9e3779b97f4a7c15)),
 		replay:   replay,
 		MaxSteps: maxSteps,
@@ -469,8 +471,21 @@ func (s *Sched) SimHook(point string, db *boltz.DbImpl) {
 		}
 	case "reload.rlock.after":
 		s.readers++
+		g := goid()
+		s.depth[g]++
+		if name, isTask := s.goids[g]; isTask && s.depth[g] >= 2 {
+			// a nested acquisition (Snapshot -> View -> SnapshotInTx): a scheduling point inside the already open
+			// read transaction, before the copy is taken
+			s.mu.Unlock()
+			s.park(name, "rlock.nested", NeedNone)
+			return
+		}
 	case "reload.runlock.after":
 		s.readers--
+		g := goid()
+		if s.depth[g] > 0 {
+			s.depth[g]--
+		}
 	case "reload.lock.before":
 		s.lockPending = true
 		if s.readers > 0 {
@@ -519,13 +534,13 @@ func (s *Sched) SimHook(point string, db *boltz.DbImpl) {
 // SeamHook is installed as simseam.Hook in the bbolt copy.
 func (s *Sched) SeamHook(site string, key []byte) error {
 	switch site {
-	case "rw.acquired", "rw.released", "tx.committed":
+	case "rw.acquired", "rw.released", "tx.committed", "tx.commit.begin":
 		s.mu.Lock()
 		if string(key) != s.mainPath {
 			s.mu.Unlock()
 			return nil
 		}
-		if site != "tx.committed" {
+		if site == "rw.acquired" || site == "rw.released" {
 			s.writerHeld = site == "rw.acquired"
 		}
 		s.seq++
